@@ -10,6 +10,7 @@ import (
 	"strings"
 
 	mux "github.com/issue9/mux/v9"
+	"github.com/issue9/mux/v9/simrt"
 	"github.com/issue9/mux/v9/types"
 )
 
@@ -80,6 +81,8 @@ type Env struct {
 	Factory   []FactoryCall
 	DefScript []WOp
 	UniqueIDs bool // builders hand out unique component ids (only in single-goroutine worlds)
+	Arena     bool // middleware lists share one backing array (adversarial but legal caller)
+	arena     []types.Middleware[*Comp]
 	// per-task id spaces in concurrent worlds: id = task*100000 + n
 }
 
@@ -132,7 +135,25 @@ func (m *MW) Middleware(next *Comp, method, pattern, router string) *Comp {
 	return &Comp{ID: -1, Kind: KMW, Tag: m.Tag, Next: next, env: m.env}
 }
 
+// MWs builds a middleware list.  With Arena set the harness behaves like a
+// caller that re-uses one buffer for all its variadic middleware arguments:
+// every list is a sub-slice of one backing array with spare capacity behind it,
+// so a callee that appends to (or keeps) the caller's slice instead of copying
+// it gets its middlewares overwritten by the next call.
 func (e *Env) MWs(tags ...string) []types.Middleware[*Comp] {
+	if len(tags) == 0 {
+		return nil
+	}
+	if e.Arena {
+		if e.arena == nil || len(e.arena)+len(tags) > cap(e.arena) {
+			e.arena = make([]types.Middleware[*Comp], 0, 256)
+		}
+		start := len(e.arena)
+		for _, t := range tags {
+			e.arena = append(e.arena, &MW{Tag: t, env: e})
+		}
+		return e.arena[start:len(e.arena)] // cap reaches into the unused rest of the arena
+	}
 	ms := make([]types.Middleware[*Comp], 0, len(tags))
 	for _, t := range tags {
 		ms = append(ms, &MW{Tag: t, env: e})
@@ -425,6 +446,8 @@ func classifyPanic(r any) string {
 	switch v := r.(type) {
 	case nil:
 		return ""
+	case simrt.BudgetExceeded:
+		return "nontermination"
 	case *InjectedPanic, *injErr, injStruct:
 		return "injected"
 	case runtime.Error:
@@ -462,6 +485,10 @@ func buildRequest(q Req, rec *ReqRec) *http.Request {
 	return r.WithContext(context.WithValue(context.Background(), recKey{}, rec))
 }
 
+// requestBudget: statements one request (or one administrative call) may execute
+// outside a task world before it is declared non-terminating.
+const requestBudget = 3000000
+
 // Serve performs one request against h (a Router or a Group) and reports what
 // happened; panics escaping ServeHTTP are caught and classified.
 func Serve(h http.Handler, q Req, faults []*FaultSpec, hook func(*ReqRec, types.Route)) (o Obs) {
@@ -474,7 +501,9 @@ func Serve(h http.Handler, q Req, faults []*FaultSpec, hook func(*ReqRec, types.
 				o.Panic = classifyPanic(p)
 				o.PanicVal = p
 			}
+			simrt.SetYieldBudget(0)
 		}()
+		simrt.SetYieldBudget(requestBudget) // a request that executes this many statements does not terminate
 		h.ServeHTTP(conn, r)
 	}()
 	conn.Finish()
